@@ -9,6 +9,7 @@
   preserved by every step, provided the step produces the same reply lines on both sides.
 -/
 import Irc.Inv
+import Irc.InvCheck
 import Irc.Lemmas.Map
 import Irc.Lemmas.Frame
 
@@ -349,6 +350,38 @@ theorem namesSome_sim (cfg : Cfg) (c : Nat) (X : Str) (chs : List Str) (client :
     · exact sendNames_sim_strip cfg c X chn _ true h
     · exact h.reply cfg _
 
+/-- explicit NAMES list: the secret channel's entries behave as if they had not been asked -/
+theorem namesSome_sim_filter (cfg : Cfg) (c : Nat) (X : Str) (C : Channel) (chs : List Str)
+    (client : Str)
+    (hX : Map.lookup X Ch = some C) (hs : C.modes.secret = true)
+    (hout : ∀ n, (connOf K c).nick = some n → Map.contains n C.users = false)
+    (h : Sim U (stripChan X U) Ch (Map.erase X Ch) K x y) :
+    Sim U (stripChan X U) Ch (Map.erase X Ch) K
+      (chs.foldl (fun x chn =>
+          match Map.lookup chn x.w.channels with
+          | some ch => sendNamesFromChannel cfg c chn ch true x
+          | none => x.reply cfg (RplEndOfNames366 client chn)) x)
+      ((chs.filter (· != X)).foldl (fun x chn =>
+          match Map.lookup chn x.w.channels with
+          | some ch => sendNamesFromChannel cfg c chn ch true x
+          | none => x.reply cfg (RplEndOfNames366 client chn)) y) := by
+  induction chs generalizing x y with
+  | nil => exact h
+  | cons chn chs ih =>
+    simp only [List.filter_cons, List.foldl_cons]
+    by_cases hk : chn = X
+    · subst hk
+      simp only [bne_self_eq_false, Bool.false_eq_true, ↓reduceIte, h.xc, hX]
+      rw [sendNames_secret_outside cfg c chn C true x hs (by rw [h.connX]; exact hout)]
+      exact ih h
+    · have : (chn != X) = true := by simp [hk]
+      simp only [this, ↓reduceIte, List.foldl_cons]
+      apply ih
+      rw [h.xc, h.yc, Map.lookup_erase_ne chn X Ch (Ne.symm hk)]
+      split
+      · exact sendNames_sim_strip cfg c X chn _ true h
+      · exact h.reply cfg _
+
 theorem processNames_all_sim (cfg : Cfg) (c : Nat) (X : Str) (C : Channel)
     (hX : Map.lookup X Ch = some C) (hs : C.modes.secret = true) (hn : (Map.keys Ch).Nodup)
     (hout : ∀ n, (connOf K c).nick = some n → Map.contains n C.users = false)
@@ -359,6 +392,40 @@ theorem processNames_all_sim (cfg : Cfg) (c : Nat) (X : Str) (C : Channel)
   simp only [h.conn c, List.isEmpty_nil, Bool.not_true, Bool.false_eq_true, ↓reduceIte, h.xc, h.yc]
   apply Sim.reply
   exact namesAll_sim cfg c X C Ch (entry_of_lookup_nodup X C Ch hn hX) hs hout h
+
+theorem processNames_filter_sim (cfg : Cfg) (c : Nat) (X : Str) (C : Channel) (chs : List Str)
+    (hX : Map.lookup X Ch = some C) (hs : C.modes.secret = true)
+    (hout : ∀ n, (connOf K c).nick = some n → Map.contains n C.users = false)
+    (hne : chs.filter (· != X) ≠ [])
+    (h : Sim U (stripChan X U) Ch (Map.erase X Ch) K x y) :
+    Sim U (stripChan X U) Ch (Map.erase X Ch) K
+      (processNames cfg c chs x) (processNames cfg c (chs.filter (· != X)) y) := by
+  have hne' : chs ≠ [] := by rintro rfl; exact hne rfl
+  have e1 : chs.isEmpty = false := by cases chs <;> simp_all
+  have e2 : (chs.filter (· != X)).isEmpty = false := by
+    cases h : chs.filter (· != X) <;> simp_all
+  unfold processNames
+  simp only [h.conn c, e1, e2, Bool.not_false, ↓reduceIte]
+  exact namesSome_sim_filter cfg c X C chs _ hX hs hout h
+
+/-- an explicit NAMES list naming only the secret channel does nothing at all -/
+theorem processNames_only_secret (cfg : Cfg) (c : Nat) (X : Str) (C : Channel) (chs : List Str)
+    (x : Ctx) (hX : Map.lookup X x.w.channels = some C) (hs : C.modes.secret = true)
+    (hout : ∀ n, (x.conn c).nick = some n → Map.contains n C.users = false)
+    (hne : chs ≠ []) (hall : ∀ ch ∈ chs, ch = X) :
+    processNames cfg c chs x = x := by
+  have e1 : chs.isEmpty = false := by cases chs <;> simp_all
+  unfold processNames
+  simp only [e1, Bool.not_false, ↓reduceIte]
+  clear e1 hne
+  induction chs with
+  | nil => rfl
+  | cons a l ih =>
+    have : a = X := hall a List.mem_cons_self
+    subst this
+    simp only [List.foldl_cons, hX]
+    rw [sendNames_secret_outside cfg c a C true x hs hout]
+    exact ih (fun ch hc => hall ch (List.mem_cons_of_mem _ hc))
 
 theorem processNames_other_sim (cfg : Cfg) (c : Nat) (X : Str) (chs : List Str)
     (hne : chs ≠ []) (hX : X ∉ chs)
@@ -741,14 +808,7 @@ theorem processPrivmsgNotice_secret_outside (cfg : Cfg) (c : Nat) (notice : Bool
     have := privmsgFold_secret_outside cfg c nick notice text X C hs (hout nick hn) (dedup targets)
       (fun t ht => hl t (mem_of_mem_dedup t targets ht)) x false hX
     obtain ⟨h1, h2, h3⟩ := this
-    have e : ∀ (p : Ctx × Bool) (t : Str),
-        (match p with
-          | (x, d) =>
-            match privmsgTarget cfg c nick notice text t x with
-            | (x', d') => (x', d || d')) =
-        ((privmsgTarget cfg c nick notice text t p.1).1,
-          p.2 || (privmsgTarget cfg c nick notice text t p.1).2) := fun p t => rfl
-    simp only [e]
+    simp only
     rw [h3]
     simp [h1, h2]
 
@@ -1062,6 +1122,592 @@ theorem processWho_sim_hideUser (cfg : Cfg) (c : Nat) (v : Str) (vu : User) (mas
           · simp only [hu, Bool.false_eq_true, ↓reduceIte]
             exact h
 
+/-! ### WHOIS -/
+
+def whoisNicks (masks : List Str) (U : Map User) : List Str :=
+  let isMask (m : Str) : Bool := containsChar '*' m || containsChar '?' m
+  let realMasks := masks.filter isMask
+  let direct := masks.filter (fun m => !isMask m && Map.contains m U)
+  let byMask := if realMasks.isEmpty then [] else
+    (Map.keys U).filter (fun n => realMasks.any (fun m => matchWildcard m n))
+  dedup (direct ++ byMask)
+
+theorem processWhois_eq (cfg : Cfg) (c : Nat) (masks : List Str) (x : Ctx) :
+    processWhois cfg c none masks x =
+      let cn := x.conn c
+      match cn.nick with
+      | none => x.panic "whois: own nick unwrap"
+      | some myNick =>
+        match Map.lookup myNick x.w.users with
+        | none => x.panic "whois: users.get(nick).unwrap"
+        | some user =>
+          ((whoisNicks masks x.w.users).foldl (fun x n => whoisOne cfg cn user n x) x).reply cfg
+            (RplEndOfWhoIs318 cn.clientName (joinWith [','] masks)) := rfl
+
+theorem dedup_filter (q : Str → Bool) (l : List Str) : dedup (l.filter q) = (dedup l).filter q := by
+  induction l with
+  | nil => rfl
+  | cons a l ih =>
+    simp only [List.filter_cons, dedup]
+    cases hq : q a with
+    | true =>
+      simp only [↓reduceIte, dedup, ih, List.filter_filter]
+      congr 1
+      apply List.filter_congr
+      intro z _
+      exact Bool.and_comm _ _
+    | false =>
+      simp only [Bool.false_eq_true, ↓reduceIte, ih, List.filter_filter]
+      apply List.filter_congr
+      intro z _
+      by_cases hz : z = a
+      · subst hz; simp [hq]
+      · simp [hz]
+
+theorem whoisNicks_erase (masks : List Str) (v : Str) (U : Map User) :
+    whoisNicks masks (Map.erase v U) = (whoisNicks masks U).filter (· != v) := by
+  unfold whoisNicks
+  simp only
+  rw [← dedup_filter, List.filter_append]
+  congr 2
+  · rw [List.filter_filter]
+    apply List.filter_congr
+    intro m _
+    rw [contains_erase]
+    cases (containsChar '*' m || containsChar '?' m) <;> cases (m != v) <;> simp
+  · split
+    · rfl
+    · rw [Map.keys_erase, List.filter_filter, List.filter_filter]
+      apply List.filter_congr
+      intro z _
+      exact Bool.and_comm _ _
+
+theorem whoisChans_hideUser (cn : Conn) (nick v : Str) (hne : nick ≠ v) (chans : KSet) :
+    whoisChans cn nick chans (stripUserC v Ch) = whoisChans cn nick chans Ch := by
+  unfold whoisChans
+  apply List.map_congr_left
+  intro chn _
+  rw [lookup_stripUserC]
+  cases Map.lookup chn Ch with
+  | none => rfl
+  | some ch =>
+    have e1 : (stripMember v ch).users = Map.erase v ch.users := rfl
+    have e2 : (stripMember v ch).modes.secret = ch.modes.secret := rfl
+    simp only [Option.map_some, e1, e2, Map.lookup_erase_ne nick v ch.users (Ne.symm hne)]
+
+theorem whoisOne_hidden (cfg : Cfg) (cn : Conn) (user vu : User) (v : Str) (x : Ctx)
+    (hv : Map.lookup v x.w.users = some vu) (hinv : vu.modes.invisible = true)
+    (hdis : KSet.disjoint vu.channels user.channels = true) :
+    whoisOne cfg cn user v x = x := by
+  rw [whoisOne_eq, hv]
+  simp [hinv, hdis]
+
+theorem whoisOne_sim_hideUser (cfg : Cfg) (cn : Conn) (user : User) (n v : Str) (hne : n ≠ v)
+    (h : Sim U (Map.erase v U) Ch (stripUserC v Ch) K x y) :
+    Sim U (Map.erase v U) Ch (stripUserC v Ch) K
+      (whoisOne cfg cn user n x) (whoisOne cfg cn user n y) := by
+  rw [whoisOne_eq, whoisOne_eq, h.xu, h.yu, Map.lookup_erase_ne n v U (Ne.symm hne)]
+  cases Map.lookup n U with
+  | none => exact h.panic _ _
+  | some au =>
+    simp only
+    split
+    · exact h
+    · apply whoisTail_sim cfg cn n au au rfl rfl
+      · rw [whoisChans_hideUser cn n v hne]
+      · exact whoisHead_sim cfg cn n au au rfl rfl rfl rfl h
+
+theorem whoisFold_sim_hideUser (cfg : Cfg) (cn : Conn) (user vu : User) (v : Str)
+    (hv : Map.lookup v U = some vu) (hinv : vu.modes.invisible = true)
+    (hdis : KSet.disjoint vu.channels user.channels = true) (nicks : List Str)
+    (h : Sim U (Map.erase v U) Ch (stripUserC v Ch) K x y) :
+    Sim U (Map.erase v U) Ch (stripUserC v Ch) K
+      (nicks.foldl (fun x n => whoisOne cfg cn user n x) x)
+      ((nicks.filter (· != v)).foldl (fun x n => whoisOne cfg cn user n x) y) := by
+  induction nicks generalizing x y with
+  | nil => exact h
+  | cons n nicks ih =>
+    simp only [List.filter_cons, List.foldl_cons]
+    by_cases hk : n = v
+    · subst hk
+      simp only [bne_self_eq_false, Bool.false_eq_true, ↓reduceIte]
+      rw [whoisOne_hidden cfg cn user vu n x (by rw [h.xu]; exact hv) hinv hdis]
+      exact ih h
+    · have : (n != v) = true := by simp [hk]
+      simp only [this, ↓reduceIte, List.foldl_cons]
+      exact ih (whoisOne_sim_hideUser cfg cn user n v hk h)
+
+theorem processWhois_sim_hideUser (cfg : Cfg) (c : Nat) (v : Str) (vu : User) (masks : List Str)
+    (hv : Map.lookup v U = some vu) (hinv : vu.modes.invisible = true)
+    (hobs : ∀ n, (connOf K c).nick = some n → n ≠ v ∧
+      ∀ u, Map.lookup n U = some u → KSet.disjoint vu.channels u.channels = true)
+    (h : Sim U (Map.erase v U) Ch (stripUserC v Ch) K x y) :
+    Sim U (Map.erase v U) Ch (stripUserC v Ch) K
+      (processWhois cfg c none masks x) (processWhois cfg c none masks y) := by
+  rw [processWhois_eq, processWhois_eq]
+  simp only [h.conn c]
+  rw [h.connX c]
+  cases hnick : (connOf K c).nick with
+  | none => exact h.panic _ _
+  | some nick =>
+    obtain ⟨hne, hd⟩ := hobs nick hnick
+    simp only
+    rw [h.xu, h.yu, Map.lookup_erase_ne nick v U (Ne.symm hne)]
+    cases hlu : Map.lookup nick U with
+    | none => exact h.panic _ _
+    | some user =>
+      simp only
+      apply Sim.reply
+      rw [whoisNicks_erase]
+      exact whoisFold_sim_hideUser cfg _ user vu v hv hinv (hd user hlu) _ h
+
 end hideUser
+
+/-! ## a channel without members is unobservable (except by explicit NAMES when it is secret)
+
+  Used for the reading of "the invisible user is not connected" in which the ad-hoc channels
+  that only `v` was on do not exist either. -/
+
+section emptyChan
+variable {U : Map User} {Ch : Map Channel} {K : List Conn} {x y : Ctx}
+
+theorem sendWhoInfo_sim_same {U' : Map User} {Ch' : Map Channel} (cfg : Cfg) (cn : Conn)
+    (chan : Option (Str × ChanUserModes)) (n : Str) (u user : User)
+    (h : Sim U U' Ch Ch' K x y) :
+    Sim U U' Ch Ch' K (sendWhoInfo cfg cn chan n u user x) (sendWhoInfo cfg cn chan n u user y) := by
+  unfold sendWhoInfo
+  split
+  · exact h.reply cfg _
+  · exact h
+
+theorem sendNames_empty (cfg : Cfg) (c : Nat) (chn : Str) (E : Channel) (x : Ctx)
+    (hE : E.users = []) : sendNamesFromChannel cfg c chn E false x = x := by
+  rw [sendNames_eq, namesLines_eq]
+  simp [namesShown, namesVisible, namesVis, namesFilter, hE, chunks, chunksAux]
+
+theorem sendNames_empty_end (cfg : Cfg) (c : Nat) (chn : Str) (E : Channel) (x : Ctx)
+    (hE : E.users = []) (hs : E.modes.secret = false) :
+    sendNamesFromChannel cfg c chn E true x =
+      x.reply cfg (RplEndOfNames366 (x.conn c).clientName chn) := by
+  rw [sendNames_eq, namesLines_eq]
+  simp [namesShown, namesVisible, namesVis, namesFilter, hE, hs, chunks, chunksAux]
+
+theorem sendNames_sim_same {Ch' : Map Channel} (cfg : Cfg) (c : Nat) (chn : Str) (ch : Channel)
+    (e : Bool) (h : Sim U U Ch Ch' K x y) :
+    Sim U U Ch Ch' K (sendNamesFromChannel cfg c chn ch e x) (sendNamesFromChannel cfg c chn ch e y) := by
+  rw [sendNames_eq, sendNames_eq, h.conn c, h.xu, h.yu]
+  have hl := namesLines_sim cfg (x.conn c) chn ch ch U U rfl rfl h
+  split
+  · cases e
+    · simpa using hl
+    · simpa using hl.reply cfg _
+  · exact h
+
+theorem namesAll_sim_empty {Ch' : Map Channel} (cfg : Cfg) (c : Nat) (Y : Str) (l : Map Channel)
+    (hE : ∀ p ∈ l, p.1 = Y → p.2.users = [])
+    (h : Sim U U Ch Ch' K x y) :
+    Sim U U Ch Ch' K
+      (l.foldl (fun x (p : Str × Channel) => sendNamesFromChannel cfg c p.1 p.2 false x) x)
+      ((Map.erase Y l).foldl (fun x (p : Str × Channel) =>
+          sendNamesFromChannel cfg c p.1 p.2 false x) y) := by
+  induction l generalizing x y with
+  | nil => exact h
+  | cons p l ih =>
+    obtain ⟨k, ch⟩ := p
+    have hE' : ∀ p ∈ l, p.1 = Y → p.2.users = [] := fun p hp => hE p (List.mem_cons_of_mem _ hp)
+    simp only [Map.erase, List.foldl_cons]
+    by_cases hk : k = Y
+    · simp only [hk, ↓reduceIte]
+      rw [sendNames_empty cfg c Y ch x (hE (k, ch) List.mem_cons_self hk)]
+      exact ih hE' h
+    · simp only [hk, ↓reduceIte, List.foldl_cons]
+      exact ih hE' (sendNames_sim_same cfg c k ch false h)
+
+theorem namesSome_sim_empty (cfg : Cfg) (c : Nat) (Y : Str) (E : Channel) (chs : List Str)
+    (hY : Map.lookup Y Ch = some E) (hE : E.users = [])
+    (hok : E.modes.secret = false ∨ Y ∉ chs)
+    (h : Sim U U Ch (Map.erase Y Ch) K x y) :
+    Sim U U Ch (Map.erase Y Ch) K
+      (chs.foldl (fun x chn =>
+          match Map.lookup chn x.w.channels with
+          | some ch => sendNamesFromChannel cfg c chn ch true x
+          | none => x.reply cfg (RplEndOfNames366 (connOf K c).clientName chn)) x)
+      (chs.foldl (fun x chn =>
+          match Map.lookup chn x.w.channels with
+          | some ch => sendNamesFromChannel cfg c chn ch true x
+          | none => x.reply cfg (RplEndOfNames366 (connOf K c).clientName chn)) y) := by
+  induction chs generalizing x y with
+  | nil => exact h
+  | cons chn chs ih =>
+    simp only [List.foldl_cons]
+    have hok' : E.modes.secret = false ∨ Y ∉ chs := by
+      rcases hok with h1 | h2
+      · exact Or.inl h1
+      · exact Or.inr (fun hm => h2 (List.mem_cons_of_mem _ hm))
+    apply ih hok'
+    rw [h.xc, h.yc]
+    by_cases hk : chn = Y
+    · subst hk
+      have hs : E.modes.secret = false := by
+        rcases hok with h1 | h2
+        · exact h1
+        · exact absurd List.mem_cons_self h2
+      simp only [hY, Map.lookup_erase_eq]
+      rw [sendNames_empty_end cfg c chn E x hE hs, h.connX c]
+      exact h.reply cfg _
+    · rw [Map.lookup_erase_ne chn Y Ch (Ne.symm hk)]
+      split
+      · exact sendNames_sim_same cfg c chn _ true h
+      · exact h.reply cfg _
+
+theorem processNames_sim_empty (cfg : Cfg) (c : Nat) (Y : Str) (E : Channel) (chs : List Str)
+    (hY : Map.lookup Y Ch = some E) (hE : E.users = []) (hn : (Map.keys Ch).Nodup)
+    (hok : E.modes.secret = false ∨ Y ∉ chs)
+    (h : Sim U U Ch (Map.erase Y Ch) K x y) :
+    Sim U U Ch (Map.erase Y Ch) K (processNames cfg c chs x) (processNames cfg c chs y) := by
+  unfold processNames
+  simp only [h.conn c]
+  rw [h.connX c]
+  split
+  · exact namesSome_sim_empty cfg c Y E chs hY hE hok h
+  · simp only [h.xc, h.yc]
+    apply Sim.reply
+    apply namesAll_sim_empty cfg c Y Ch _ h
+    intro p hp hk
+    rw [entry_of_lookup_nodup Y E Ch hn hY p hp hk]; exact hE
+
+theorem whoWild_sim_same {Ch' : Map Channel} (cfg : Cfg) (cn : Conn) (mask : Str) (user : User)
+    (l : Map User) (h : Sim U U Ch Ch' K x y) :
+    Sim U U Ch Ch' K
+      (l.foldl (fun x (p : Str × User) =>
+        if matchWildcard mask p.1 || matchWildcard mask p.2.source || matchWildcard mask p.2.realname
+        then sendWhoInfo cfg cn none p.1 p.2 user x else x) x)
+      (l.foldl (fun x (p : Str × User) =>
+        if matchWildcard mask p.1 || matchWildcard mask p.2.source || matchWildcard mask p.2.realname
+        then sendWhoInfo cfg cn none p.1 p.2 user x else x) y) := by
+  induction l generalizing x y with
+  | nil => exact h
+  | cons p l ih =>
+    simp only [List.foldl_cons]
+    apply ih
+    split
+    · exact sendWhoInfo_sim_same cfg cn none _ _ user h
+    · exact h
+
+theorem whoChan_sim_same {Ch' : Map Channel} (cfg : Cfg) (cn : Conn) (mask : Str) (user : User)
+    (l : Map ChanUserModes) (h : Sim U U Ch Ch' K x y) :
+    Sim U U Ch Ch' K
+      (l.foldl (fun x (p : Str × ChanUserModes) =>
+        match Map.lookup p.1 x.w.users with
+        | some uu => sendWhoInfo cfg cn (some (mask, p.2)) p.1 uu user x
+        | none => x.panic "who: member without user") x)
+      (l.foldl (fun x (p : Str × ChanUserModes) =>
+        match Map.lookup p.1 x.w.users with
+        | some uu => sendWhoInfo cfg cn (some (mask, p.2)) p.1 uu user x
+        | none => x.panic "who: member without user") y) := by
+  induction l generalizing x y with
+  | nil => exact h
+  | cons p l ih =>
+    simp only [List.foldl_cons]
+    apply ih
+    rw [h.xu, h.yu]
+    cases Map.lookup p.1 U with
+    | none => exact h.panic _ _
+    | some uu => exact sendWhoInfo_sim_same cfg cn _ _ uu user h
+
+theorem processWho_sim_empty (cfg : Cfg) (c : Nat) (Y : Str) (E : Channel) (mask : Str)
+    (hY : Map.lookup Y Ch = some E) (hE : E.users = [])
+    (h : Sim U U Ch (Map.erase Y Ch) K x y) :
+    Sim U U Ch (Map.erase Y Ch) K (processWho cfg c mask x) (processWho cfg c mask y) := by
+  unfold processWho
+  simp only [h.conn c]
+  rw [h.connX c]
+  cases (connOf K c).nick with
+  | none => exact h.panic _ _
+  | some nick =>
+    simp only
+    rw [h.xu, h.yu]
+    cases Map.lookup nick U with
+    | none => exact h.panic _ _
+    | some user =>
+      simp only
+      apply Sim.reply
+      by_cases hw : (containsChar '*' mask || containsChar '?' mask) = true
+      · simp only [hw, ↓reduceIte]
+        exact whoWild_sim_same cfg _ mask user U h
+      · simp only [hw, Bool.false_eq_true, ↓reduceIte]
+        by_cases hc : validateChannel mask = true
+        · simp only [hc, ↓reduceIte, h.xc, h.yc]
+          by_cases hm : mask = Y
+          · subst hm
+            simp only [hY, Map.lookup_erase_eq, hE, List.foldl_nil, ite_self]
+            exact h
+          · rw [Map.lookup_erase_ne mask Y Ch (Ne.symm hm)]
+            cases Map.lookup mask Ch with
+            | none => exact h
+            | some ch =>
+              simp only
+              split
+              · exact whoChan_sim_same cfg _ mask user ch.users h
+              · exact h
+        · simp only [hc, Bool.false_eq_true, ↓reduceIte]
+          by_cases hu : validateUsername mask = true
+          · simp only [hu, ↓reduceIte]
+            cases Map.lookup mask U with
+            | none => exact h
+            | some au => exact sendWhoInfo_sim_same cfg _ none mask au user h
+          · simp only [hu, Bool.false_eq_true, ↓reduceIte]
+            exact h
+
+theorem whoisShown_empty (cn : Conn) (nick Y : Str) (E : Channel) (chans : KSet)
+    (hY : Map.lookup Y Ch = some E) (hE : E.users = []) :
+    whoisShown (whoisChans cn nick chans (Map.erase Y Ch)) =
+      whoisShown (whoisChans cn nick chans Ch) := by
+  unfold whoisShown whoisChans
+  induction chans with
+  | nil => rfl
+  | cons chn chans ih =>
+    simp only [List.map_cons, List.filterMap_cons]
+    rw [ih]
+    by_cases hk : chn = Y
+    · subst hk
+      simp only [Map.lookup_erase_eq, hY, hE, Map.lookup_nil]
+      cases E.modes.secret <;> rfl
+    · rw [Map.lookup_erase_ne chn Y Ch (Ne.symm hk)]
+
+theorem whoisFold_sim_empty (cfg : Cfg) (cn : Conn) (user : User) (Y : Str) (E : Channel)
+    (hY : Map.lookup Y Ch = some E) (hE : E.users = []) (nicks : List Str)
+    (h : Sim U U Ch (Map.erase Y Ch) K x y) :
+    Sim U U Ch (Map.erase Y Ch) K
+      (nicks.foldl (fun x n => whoisOne cfg cn user n x) x)
+      (nicks.foldl (fun x n => whoisOne cfg cn user n x) y) := by
+  induction nicks generalizing x y with
+  | nil => exact h
+  | cons n nicks ih =>
+    simp only [List.foldl_cons]
+    apply ih
+    rw [whoisOne_eq, whoisOne_eq, h.xu, h.yu]
+    cases Map.lookup n U with
+    | none => exact h.panic _ _
+    | some au =>
+      simp only
+      split
+      · exact h
+      · apply whoisTail_sim cfg cn n au au rfl rfl
+        · exact whoisShown_empty cn n Y E au.channels hY hE
+        · exact whoisHead_sim cfg cn n au au rfl rfl rfl rfl h
+
+theorem processWhois_sim_empty (cfg : Cfg) (c : Nat) (Y : Str) (E : Channel) (masks : List Str)
+    (hY : Map.lookup Y Ch = some E) (hE : E.users = [])
+    (h : Sim U U Ch (Map.erase Y Ch) K x y) :
+    Sim U U Ch (Map.erase Y Ch) K
+      (processWhois cfg c none masks x) (processWhois cfg c none masks y) := by
+  rw [processWhois_eq, processWhois_eq]
+  simp only [h.conn c]
+  rw [h.connX c]
+  cases (connOf K c).nick with
+  | none => exact h.panic _ _
+  | some nick =>
+    simp only
+    rw [h.xu, h.yu]
+    cases Map.lookup nick U with
+    | none => exact h.panic _ _
+    | some user =>
+      simp only
+      apply Sim.reply
+      exact whoisFold_sim_empty cfg _ user Y E hY hE _ h
+
+end emptyChan
+
+theorem keys_stripUserC (v : Str) (cs : Map Channel) : Map.keys (stripUserC v cs) = Map.keys cs := by
+  simp [Map.keys, stripUserC, List.map_map, Function.comp_def]
+
+/-! ## what the invariant gives about the observer -/
+
+/-- an outsider of channel `X` does not have `X` in its own channel set (membership symmetry) -/
+theorem not_mem_of_outside {w : World} (hI : InvCore w) (X : Str) (C : Channel) (c : Nat)
+    (hX : Map.lookup X w.channels = some C)
+    (hout : ∀ n, (connOf w.conns c).nick = some n → Map.contains n C.users = false) :
+    ∀ n u, (connOf w.conns c).nick = some n → Map.lookup n w.users = some u →
+      KSet.mem X u.channels = false := by
+  intro n u hn hu
+  cases hm : KSet.mem X u.channels with
+  | false => rfl
+  | true =>
+    obtain ⟨C', hC', hc⟩ := (hI.memberSym n u X hu).mp hm
+    rw [hX] at hC'
+    cases hC'
+    rw [hout n hn] at hc
+    exact absurd hc (by simp)
+
+theorem mem_false_of_disjoint (a b : KSet) (z : Str) (hd : KSet.disjoint a b = true)
+    (hz : KSet.mem z a = true) : KSet.mem z b = false := by
+  unfold KSet.disjoint at hd
+  have := List.all_eq_true.mp hd z ((KSet.mem_iff z a).mp hz)
+  simpa using this
+
+/-- a stranger to `v` is on none of `v`'s channels -/
+theorem inChan_false_of_stranger {w : World} (hI : InvCore w) (v : Str) (vu : User) (c : Nat)
+    (hv : Map.lookup v w.users = some vu)
+    (hobs : ∀ n, (connOf w.conns c).nick = some n → n ≠ v ∧
+      ∀ u, Map.lookup n w.users = some u → KSet.disjoint vu.channels u.channels = true) :
+    ∀ chn ch, Map.lookup chn w.channels = some ch → Map.contains v ch.users = true →
+      inChan (connOf w.conns c) ch.users = false := by
+  intro chn ch hch hvin
+  unfold inChan
+  split
+  · rename_i n hn
+    cases hc : Map.contains n ch.users with
+    | false => rfl
+    | true =>
+      obtain ⟨u, hu⟩ := (Map.contains_iff n w.users).mp (hI.memberIsUser chn ch n hch hc)
+      have h1 : KSet.mem chn u.channels = true := (hI.memberSym n u chn hu).mpr ⟨ch, hch, hc⟩
+      have h2 : KSet.mem chn vu.channels = true := (hI.memberSym v vu chn hv).mpr ⟨ch, hch, hvin⟩
+      have := mem_false_of_disjoint _ _ chn ((hobs n hn).2 u hu) h2
+      rw [h1] at this
+      exact absurd this (by simp)
+  · rfl
+
+/-! ## the executable invariant check is sound -/
+
+theorem ite_nil_iff (b : Bool) (s : String) :
+    (if b = true then ([] : List String) else [s]) = [] ↔ b = true := by
+  cases b <;> simp
+
+theorem nodup_of_nodupStrs (l : List Str) (h : nodupStrs l = true) : l.Nodup := by
+  induction l with
+  | nil => exact List.nodup_nil
+  | cons a l ih =>
+    simp only [nodupStrs, Bool.and_eq_true, Bool.not_eq_true', List.any_eq_false, beq_iff_eq] at h
+    exact List.nodup_cons.mpr ⟨fun hm => h.1 a hm rfl, ih h.2⟩
+
+theorem nodup_of_nodupNats (l : List Nat) (h : nodupNats l = true) : l.Nodup := by
+  induction l with
+  | nil => exact List.nodup_nil
+  | cons a l ih =>
+    simp only [nodupNats, Bool.and_eq_true, Bool.not_eq_true', List.any_eq_false, beq_iff_eq] at h
+    exact List.nodup_cons.mpr ⟨fun hm => h.1 a hm rfl, ih h.2⟩
+
+theorem mem_of_lookup {α : Type} (k : Str) (v : α) (m : Map α) (h : Map.lookup k m = some v) :
+    (k, v) ∈ m := by
+  induction m with
+  | nil => simp at h
+  | cons p m ih =>
+    obtain ⟨k', v'⟩ := p
+    simp only [Map.lookup] at h
+    split at h
+    · rename_i e; cases h; subst e; exact List.mem_cons_self
+    · exact List.mem_cons_of_mem _ (ih h)
+
+theorem all_lookup {α : Type} (m : Map α) (f : Str × α → Bool) (h : m.all f = true)
+    (k : Str) (v : α) (hl : Map.lookup k m = some v) : f (k, v) = true :=
+  List.all_eq_true.mp h (k, v) (mem_of_lookup k v m hl)
+
+theorem rank_iff_of_check (lst : KSet) (users : Map ChanUserModes) (flag : ChanUserModes → Bool)
+    (h : (lst.all (fun n => match Map.lookup n users with | some m => flag m | none => false) &&
+      users.all (fun p => !flag p.2 || KSet.mem p.1 lst)) = true) (n : Str) :
+    KSet.mem n lst = true ↔ ∃ m, Map.lookup n users = some m ∧ flag m = true := by
+  rw [Bool.and_eq_true] at h
+  constructor
+  · intro hm
+    have := List.all_eq_true.mp h.1 n ((KSet.mem_iff n lst).mp hm)
+    cases hl : Map.lookup n users with
+    | none => simp [hl] at this
+    | some m => exact ⟨m, rfl, by simpa [hl] using this⟩
+  · rintro ⟨m, hl, hf⟩
+    have := all_lookup users _ h.2 n m hl
+    simpa [hf] using this
+
+theorem rankMirror_of_check (C : Channel) (h : rankMirrorCheck C = true) : RankMirror C := by
+  unfold rankMirrorCheck at h
+  simp only [Bool.and_eq_true] at h
+  obtain ⟨⟨⟨⟨⟨h1a, h1b⟩, h2a, h2b⟩, h3a, h3b⟩, h4a, h4b⟩, h5a, h5b⟩ := h
+  exact
+    { founders := rank_iff_of_check _ _ (·.founder) (by rw [Bool.and_eq_true]; exact ⟨h1a, h1b⟩)
+      protecteds := rank_iff_of_check _ _ (·.prot) (by rw [Bool.and_eq_true]; exact ⟨h2a, h2b⟩)
+      operators := rank_iff_of_check _ _ (·.operator) (by rw [Bool.and_eq_true]; exact ⟨h3a, h3b⟩)
+      halfOperators := rank_iff_of_check _ _ (·.halfOper) (by rw [Bool.and_eq_true]; exact ⟨h4a, h4b⟩)
+      voices := rank_iff_of_check _ _ (·.voice) (by rw [Bool.and_eq_true]; exact ⟨h5a, h5b⟩) }
+
+/-- The executable check `invCoreCheck` (run by the driver on every model state) is sound for
+    `InvCore`, given additionally that no user has a fired quit signal (the check does not
+    look at `killedFlagged`). -/
+theorem invCore_of_check (w : World) (h : invCoreCheck w = [])
+    (hk : w.users.all (fun p => !p.2.killed) = true) : InvCore w := by
+  unfold invCoreCheck at h
+  simp only [List.append_eq_nil_iff, ite_nil_iff] at h
+  obtain ⟨⟨⟨⟨⟨⟨⟨⟨⟨⟨⟨⟨⟨⟨⟨⟨⟨h1, h2⟩, h3⟩, h4⟩, h5⟩, h6⟩, h7⟩, h8⟩, h9⟩, h10⟩, h11⟩, h12⟩, h13⟩, h14⟩,
+    h15⟩, h16⟩, h17⟩, h18⟩ := h
+  refine
+    { noPanic := by simpa using h1
+      usersNodup := nodup_of_nodupStrs _ h2
+      chansNodup := nodup_of_nodupStrs _ h3
+      connsNodup := nodup_of_nodupNats _ h4
+      membersNodup := fun ch C hl => nodup_of_nodupStrs _ (all_lookup _ _ h5 ch C hl)
+      userChansNodup := fun n u hl => nodup_of_nodupStrs _ (all_lookup _ _ h6 n u hl)
+      authOwns := ?_
+      userOwned := ?_
+      memberSym := ?_
+      memberIsUser := ?_
+      rankMirror := fun ch C hl => rankMirror_of_check C (all_lookup _ _ h11 ch C hl)
+      noEmptyAdHoc := ?_
+      invisibleCount := by simpa using h13
+      operatorsCount := by simpa using h14
+      wallopsSet := ?_
+      maxUsers := by simpa using h16
+      resources := ?_
+      slots := by simpa using h18
+      killedFlagged := ?_ }
+  · intro cn hcn ha
+    have := List.all_eq_true.mp h7 cn hcn
+    simp only [ha, Bool.not_true, Bool.false_or] at this
+    cases hn : cn.nick with
+    | none => simp [hn] at this
+    | some n =>
+      cases hl : Map.lookup n w.users with
+      | none => simp [hn, hl] at this
+      | some u => exact ⟨n, u, rfl, hl, by simpa [hn, hl] using this⟩
+  · intro n u hl
+    have := all_lookup _ _ h8 n u hl
+    obtain ⟨cn, hcn, hc⟩ := List.any_eq_true.mp this
+    simp only [Bool.and_eq_true, beq_iff_eq] at hc
+    exact ⟨cn, hcn, hc.1.1, hc.1.2, hc.2⟩
+  · intro n u ch hl
+    have := all_lookup _ _ h9 n u hl
+    rw [Bool.and_eq_true] at this
+    constructor
+    · intro hm
+      have h' := List.all_eq_true.mp this.1 ch ((KSet.mem_iff ch u.channels).mp hm)
+      cases hc : Map.lookup ch w.channels with
+      | none => simp [hc] at h'
+      | some C => exact ⟨C, rfl, by simpa [hc] using h'⟩
+    · rintro ⟨C, hc, hin⟩
+      have h' := all_lookup _ _ this.2 ch C hc
+      simpa [hin] using h'
+  · intro ch C n hl hin
+    have h' := all_lookup _ _ h10 ch C hl
+    obtain ⟨m, hm⟩ := (Map.contains_iff n C.users).mp hin
+    exact all_lookup _ _ h' n m hm
+  · intro ch C hl he
+    have h' := all_lookup _ _ h12 ch C hl
+    simpa [he] using h'
+  · intro n
+    rw [Bool.and_eq_true] at h15
+    constructor
+    · intro hm
+      have h' := List.all_eq_true.mp h15.1 n ((KSet.mem_iff n w.wallops).mp hm)
+      cases hl : Map.lookup n w.users with
+      | none => simp [hl] at h'
+      | some u => exact ⟨u, rfl, by simpa [hl] using h'⟩
+    · rintro ⟨u, hl, hw⟩
+      have h' := all_lookup _ _ h15.2 n u hl
+      simpa [hw] using h'
+  · intro cn hcn ha
+    have := List.all_eq_true.mp h17 cn hcn
+    simp only [ha, Bool.false_or, Bool.and_eq_true] at this
+    exact ⟨this.1.1, this.1.2, this.2⟩
+  · intro n u hl hkk
+    have := all_lookup _ _ hk n u hl
+    simp [hkk] at this
 
 end Irc.C12
